@@ -117,7 +117,9 @@ def draw_abs_glyph(glyph, g):
         tr = tuple(from_scaled(v, MS) for v in c["m"]) + tuple(from_scaled(v, PS) for v in c["d"])
         pen.addComponent(c["b"], tr)
     for a in g.get("anchors", []):
-        glyph.appendAnchor({"name": a["n"], "x": from_scaled(a["x"], PS), "y": from_scaled(a["y"], PS)})
+        # ("xf" / "yf": a raw decimal coordinate outside the dyadic domain, for checks that compare bytes rather than values)
+        glyph.appendAnchor({"name": a["n"], "x": a["xf"] if "xf" in a else from_scaled(a["x"], PS),
+                            "y": a["yf"] if "yf" in a else from_scaled(a["y"], PS)})
 
 
 def build_font(case, lib="ufoLib2"):
